@@ -419,6 +419,31 @@ func c01Enumerate(tier string, emit func(*eng.Case)) {
 			emit(&eng.Case{Kind: "title", P: map[string]string{"title": title, "h1": h1, "doc": fmt.Sprintf("<title>%s</title> h1=%s", title, h1)}})
 		}
 	})
+	// 11: attribute values that the library slices, splits or matches (data URLs, srcset lists,
+	// query strings): every string of <= 3 / <= 4 tokens in every URL-carrying position
+	vl := 3
+	if thorough {
+		vl = 4
+	}
+	vt := make([]int, len(c01ValToks))
+	for i := range vt {
+		vt[i] = i
+	}
+	seqEnum(vt, vl, func(seq []int) {
+		if len(seq) == 0 {
+			return
+		}
+		var sb strings.Builder
+		for _, x := range seq {
+			sb.WriteString(c01ValToks[x])
+		}
+		v := sb.String()
+		for pi := range c01ValPositions {
+			for _, u := range []string{"", "http://example.com/a/2"} {
+				emit(&eng.Case{Kind: "attrval", URL: u, Algo: 1, P: map[string]string{"val": v, "pos": strconv.Itoa(pi), "doc": fmt.Sprintf("%s = %q", c01ValPositions[pi].name, v)}})
+			}
+		}
+	})
 	// 9: scale sweep: one document with n distinct inline styles, classes, ids and link targets for n around
 	// every power of two up to 8192 (capacity limits of caches and tables sit at such boundaries)
 	for e := 0; e <= 13; e++ {
@@ -483,6 +508,42 @@ func (t *ioTransport) RoundTrip(r *http.Request) (*http.Response, error) {
 	}
 	return &http.Response{StatusCode: status, Status: fmt.Sprint(status), Proto: "HTTP/1.1", ProtoMajor: 1, ProtoMinor: 1, Header: h,
 		Body: io.NopCloser(strings.NewReader(t.body)), Request: r, ContentLength: int64(len(t.body))}, nil
+}
+
+// c01ValToks: pieces of attribute values around the places where the library indexes into them.
+var c01ValToks = []string{"data:", "image/png", ";base64", ",", "AAAA", "=", " ", "http://example.com", "//", "/i.png", "?", "#", "%", " 2x", "javascript:", "\n"}
+
+var c01ValPositions = []struct {
+	name string
+	gen  func(v string) string
+}{
+	{"img[src]", func(v string) string { return "<img src=\"" + v + "\" width=\"400\" height=\"300\">" }},
+	{"img[srcset]", func(v string) string {
+		return "<img src=\"http://example.com/i.png\" srcset=\"" + v + "\" width=\"400\" height=\"300\">"
+	}},
+	{"picture>source[srcset]", func(v string) string {
+		return "<picture><source srcset=\"" + v + "\"><img src=\"http://example.com/i.png\" width=\"400\" height=\"300\"></picture>"
+	}},
+	{"figure>img[src]", func(v string) string {
+		return "<figure><img src=\"" + v + "\" width=\"400\" height=\"300\"><figcaption>cap words here</figcaption></figure>"
+	}},
+	{"img[data-src]", func(v string) string {
+		return "<img class=\"lazy\" data-src=\"" + v + "\" width=\"400\" height=\"300\">"
+	}},
+	{"a[href]", func(v string) string {
+		return "<p>some words around <a href=\"" + v + "\">the link text</a> and after it</p>"
+	}},
+	{"pager a[href]", func(v string) string {
+		return "<div class=\"pagination\"><a href=\"/a/1\">1</a> 2 <a href=\"" + v + "\">3</a> <a href=\"" + v + "\">Next</a></div>"
+	}},
+	{"video[poster]+source[src]", func(v string) string {
+		return "<video poster=\"" + v + "\" width=\"400\" height=\"300\"><source src=\"" + v + "\"></video>"
+	}},
+	{"iframe[src]", func(v string) string { return "<iframe src=\"" + v + "\"></iframe>" }},
+	{"object[data]", func(v string) string { return "<object data=\"" + v + "\"></object>" }},
+	{"td img[src]", func(v string) string {
+		return "<table><tr><th>a</th><th>b</th></tr><tr><td><img src=\"" + v + "\"></td><td>d</td></tr></table>"
+	}},
 }
 
 func c01Opts(c *eng.Case) *distiller.Options {
@@ -552,6 +613,16 @@ func c01Check(c *eng.Case) *eng.Outcome {
 			pi = eng.Protect(func() { res, err = distiller.ApplyForURL(u, 2*time.Second, c01Opts(c)) })
 			http.DefaultTransport = old
 		}
+	case "attrval":
+		t := &ora.Tok{}
+		idx, _ := strconv.Atoi(c.Get("pos"))
+		if idx >= len(c01ValPositions) {
+			o.Skipped = "stale replay"
+			return o
+		}
+		v := strings.NewReplacer("&", "&amp;", "\"", "&quot;").Replace(c.Get("val"))
+		doc := ora.Parse("<html><head><title>" + ora.DefaultTitle + "</title></head><body><div><p>" + t.W(22) + "</p>" + c01ValPositions[idx].gen(v) + "<p>" + t.W(21) + "</p><p>" + t.W(20) + "</p></div></body></html>")
+		pi = eng.Protect(func() { res, err = distiller.Apply(doc, c01Opts(c)) })
 	case "title":
 		t := &ora.Tok{}
 		h1 := ""
@@ -638,7 +709,7 @@ func init() {
 		DesignRef: "§5 C01",
 		Rule: "five sub-spaces, each complete to its bound. (1) all ordered trees of hand-built nodes with <= 3 (quick) / <= 4 (thorough) nodes over 33 labels and of 4 / 5 nodes over 12 core labels, x every node as root attached (inside document>html>body) and detached, plus the document node and a bare document; " +
 			"(2) every tree of <= 2 / <= 3 nodes x every node x 11 field mutations (empty Data, upper-case tag, zero/wrong DataAtom, svg namespace, empty Attr slice, duplicate/empty attribute keys, Error/Doctype/Raw node types); (3) trees of <= 2 nodes x nil options and 16 URLs (IPv6, userinfo, non-ASCII host, mailto, relative, placeholder literal, escaped slash, ...) x log-flag sets x SkipPagination x algorithm; " +
-			"(4) a pager whose hrefs are scheme x host x path x query x fragment pieces with <= 2 pieces off default (quick) / full product (thorough) x 14 page URLs (case-folding hosts, placeholder literals, escapes) x both algorithms; (6) every element of the rich host document of C05 (all rendering paths) x 11 taints (hidden, display:none, children removed, aria-hidden, attributes removed, class=sidebar, display:block, contenteditable, class/id values matching both word lists of the link scorers), without URL and with URL under each pagination algorithm, singles and pairs (quick: pairs over the first 3 taints); (9) a scale sweep: one document with n distinct inline styles, classes, ids and link targets for n = 2^e-1, 2^e, 2^e+1 up to 4097 (quick) / 8193 (thorough); (8) ApplyForFile on an existing/missing/directory path and ApplyForURL through a stub transport (HTML, non-HTML, missing content type, transport error, malformed and relative URL, 204) x 5 bodies x nil/non-nil options; (7) every <title> of <= 3 (quick) / <= 4 (thorough) tokens over 29 word/separator tokens (ASCII and full-width colon, dashes, pipes, guillemets, slashes, NBSP, punctuation), with and without an equal h1; (5) all ApplyForReader inputs of <= 3 / <= 4 tokens over 32 byte tokens and 4 / 5 over 12 core tokens, with and without URL; (10)" + crossRule + " (there: without URL, with URL under each algorithm and all log flags, and through ApplyForReader) " +
+			"(4) a pager whose hrefs are scheme x host x path x query x fragment pieces with <= 2 pieces off default (quick) / full product (thorough) x 14 page URLs (case-folding hosts, placeholder literals, escapes) x both algorithms; (6) every element of the rich host document of C05 (all rendering paths) x 11 taints (hidden, display:none, children removed, aria-hidden, attributes removed, class=sidebar, display:block, contenteditable, class/id values matching both word lists of the link scorers), without URL and with URL under each pagination algorithm, singles and pairs (quick: pairs over the first 3 taints); (9) a scale sweep: one document with n distinct inline styles, classes, ids and link targets for n = 2^e-1, 2^e, 2^e+1 up to 4097 (quick) / 8193 (thorough); (8) ApplyForFile on an existing/missing/directory path and ApplyForURL through a stub transport (HTML, non-HTML, missing content type, transport error, malformed and relative URL, 204) x 5 bodies x nil/non-nil options; (7) every <title> of <= 3 (quick) / <= 4 (thorough) tokens over 29 word/separator tokens (ASCII and full-width colon, dashes, pipes, guillemets, slashes, NBSP, punctuation), with and without an equal h1; (5) all ApplyForReader inputs of <= 3 / <= 4 tokens over 32 byte tokens and 4 / 5 over 12 core tokens, with and without URL; (11) every string of <= 3 / <= 4 tokens over 16 attribute-value tokens (data:, a mime type, ;base64, comma, payload, =, space, absolute prefix, //, path, ?, #, %, a srcset descriptor, javascript:, newline) in 11 URL-carrying positions (img src/srcset/data-src, picture source, figure img, a href, pager hrefs, video poster + source, iframe, object, image in a data-table cell), with and without page URL; (10)" + crossRule + " (there: without URL, with URL under each algorithm and all log flags, and through ApplyForReader) " +
 			"Oracle: no panic, step budget (2e7 hook events) not exceeded, worker process survives, and the call returns an error or a result whose Node is a div element. Non-trivial = anything but a plain document root with default options.",
 		Enumerate:        c01Enumerate,
 		Check:            c01Check,
